@@ -28,6 +28,7 @@ type VCase struct {
 	// logged from the library (exported fields SigmaInv / SigmaDet)
 	SInv [][]float64 `json:"sinv,omitempty"`
 	SDet float64     `json:"sdet,omitempty"`
+	Pdf  bool        `json:"pdf,omitempty"` // the Pdf method (VT, VNormal) instead of LogPdf
 }
 
 func vecOf(t ad.ScalarType, xs []float64) ad.Vector {
@@ -97,12 +98,24 @@ func vecNew(fam string, t ad.ScalarType, c *VCase) (st.VectorPdf, error) {
 	return nil, fmt.Errorf("unknown vector family")
 }
 
-func vecCall(d st.VectorPdf, r ad.Scalar, x []float64) (out Outcome) {
+func vecCall(d st.VectorPdf, r ad.Scalar, x []float64, pdf ...bool) (out Outcome) {
 	defer func() {
 		if e := recover(); e != nil {
 			out = Outcome{"panic", 0}
 		}
 	}()
+	if len(pdf) > 0 && pdf[0] {
+		p, ok := d.(interface {
+			Pdf(ad.Scalar, ad.ConstVector) error
+		})
+		if !ok {
+			return Outcome{"nosuch", 0}
+		}
+		if err := p.Pdf(r, vecOf(ad.Float64Type, x)); err != nil {
+			return Outcome{"err", 0}
+		}
+		return classify(r.GetFloat64())
+	}
 	if err := d.LogPdf(r, vecOf(ad.Float64Type, x)); err != nil {
 		return Outcome{"err", 0}
 	}
@@ -128,7 +141,7 @@ func vecEvalAll(fam string, c *VCase) (Outcome, string) {
 					o = Outcome{"ctorerr", 0}
 					return
 				}
-				o = vecCall(d, ad.NewScalar(ad.Real64Type, r0), c.X)
+				o = vecCall(d, ad.NewScalar(ad.Real64Type, r0), c.X, c.Pdf)
 			}()
 			if k == 0 {
 				first = o
@@ -179,11 +192,13 @@ func genVCase(k int, r *Rng) (string, VCase) {
 		c.Sigma = gSPD(r, d)
 		if k%4 == 0 {
 			c.Nu = []float64{0.5, 1, 1.5, 2, 2.5, 3, 4.5, 7, 10}[r.Intn(9)]
+			c.Pdf = (k/16)%3 == 1 // round 6: the Pdf method, every dimension in turn
 			return "VT", c
 		}
 		if r.Intn(8) == 0 { // dimension guard of LogPdf
 			c.X = append(c.X, 1)
 		}
+		c.Pdf = (k/16)%3 == 2
 		return "VNormal", c
 	case 2:
 		d = 1 + (k/4)%3 // products: 1..3 components (the certificate of a product grows quickly with d)
@@ -297,9 +312,13 @@ func vcaseCoq(fam string, c VCase, o Outcome) string {
 	for _, h := range hyps {
 		sb.WriteString(h + " -> ")
 	}
-	sb.WriteString(fmt.Sprintf("agrees (veval lgam lerfc gamP %s %s %s %s %s [%s] [%s] (%d)%%Z %s) %s)",
-		vf, RL(c.Nu), RList(c.Mu), RMat(c.SInv), RL(c.SDet), strings.Join(pss, "; "), strings.Join(zss, "; "),
-		c.N, xs, obs))
+	wrap := ""
+	if c.Pdf {
+		wrap = "pdf_of (" // Model.pdf_of: LogPdf, then r.Exp(r)
+	}
+	sb.WriteString(fmt.Sprintf("agrees (%sveval lgam lerfc gamP %s %s %s %s %s [%s] [%s] (%d)%%Z %s%s) %s)",
+		wrap, vf, RL(c.Nu), RList(c.Mu), RMat(c.SInv), RL(c.SDet), strings.Join(pss, "; "), strings.Join(zss, "; "),
+		c.N, xs, wclose(wrap), obs))
 	return sb.String()
 }
 
@@ -399,11 +418,54 @@ func refVecLogPdf(fam string, c VCase) float64 {
 
 func vecFailure(fam, kind string, c VCase, obs, exp string) Failure {
 	cc := c
-	return Failure{Fam: fam, Kind: kind, Fn: "LogPdf", P: Params{}, X: 0, Observed: obs, Expected: exp, V: &cc}
+	fn := "LogPdf"
+	if c.Pdf {
+		fn = "Pdf"
+	}
+	return Failure{Fam: fam, Kind: kind, Fn: fn, P: Params{}, X: 0, Observed: obs, Expected: exp, V: &cc}
+}
+
+func wclose(wrap string) string {
+	if wrap != "" {
+		return ")"
+	}
+	return ""
+}
+
+// Pdf is `LogPdf; r.Exp(r)`: the same error / panic, else the exponential of the value LogPdf left in r
+func pdfAgrees(lo, po Outcome) (bool, string) {
+	switch lo.Kind {
+	case "err", "panic", "ctorerr", "nosuch":
+		return po.Kind == lo.Kind, lo.Kind
+	}
+	want := math.Exp(num(lo))
+	exp := fmt.Sprintf("exp(LogPdf) = %v", want)
+	if po.Kind == "err" || po.Kind == "panic" || po.Kind == "nosuch" || po.Kind == "ctorerr" {
+		return false, exp
+	}
+	got := num(po)
+	if math.IsNaN(want) {
+		return math.IsNaN(got), exp
+	}
+	return got == want || math.Abs(got-want) <= 1e-12*math.Max(1, math.Abs(want)), exp
 }
 
 func vecCheck(fam string, c VCase, report func(Failure), tried *int) {
 	*tried++
+	if fam == "VT" || fam == "VNormal" {
+		// the Pdf method against the LogPdf method (whatever the case asked for)
+		cl, cp := c, c
+		cl.Pdf, cp.Pdf = false, true
+		lo, _ := vecEvalAll(fam, &cl)
+		po, inc := vecEvalAll(fam, &cp)
+		if inc != "" {
+			report(vecFailure(fam, "consistency", cp, inc, "identical outcomes"))
+		}
+		if ok, exp := pdfAgrees(lo, po); !ok {
+			report(vecFailure(fam, "pdf-exp", cp, fmt.Sprintf("%s %v", po.Kind, po.V), exp))
+		}
+	}
+	c.Pdf = false
 	o, inc := vecEvalAll(fam, &c)
 	if inc != "" {
 		report(vecFailure(fam, "consistency", c, inc, "identical outcomes"))
